@@ -17,6 +17,12 @@
 //	      opener renders to is left open, but the output must start with exactly T and end with exactly U
 //	      (T and U lie outside every delimiter under either reading of the backslash).
 //
+//	place: every comment body and every verbatim body of those bounds again in each of 13 PLACEMENTS other
+//	      than the top level: inside a macro body that is then called (directly, through _self, through
+//	      import-as from another template, through from-import), inside a block (plain, overriding a
+//	      parent's block, reached through parent(), inherited), inside an included template, inside a for
+//	      body (two iterations), inside an if branch and an else branch, inside an apply block. Same oracle.
+//
 // Every source is rendered a second time behind a 4100-byte comment (second tokenizer).
 package main
 
@@ -50,13 +56,21 @@ func newEngine() *twig.Engine {
 	return e
 }
 
-func render(src string, ctx map[string]interface{}) (res string) {
+func render(src string, ctx map[string]interface{}) string { return renderWith(nil, src, ctx) }
+
+// renderWith registers the extra templates (name, source) in order, then src as "t", and renders "t".
+func renderWith(extras [][2]string, src string, ctx map[string]interface{}) (res string) {
 	defer func() {
 		if r := recover(); r != nil {
 			res = fmt.Sprintf("PANIC %v", r)
 		}
 	}()
 	e := newEngine()
+	for _, x := range extras {
+		if err := e.RegisterString(x[0], x[1]); err != nil {
+			return "PARSEERR(" + x[0] + ") " + err.Error()
+		}
+	}
 	if err := e.RegisterString("t", src); err != nil {
 		return "PARSEERR " + err.Error()
 	}
@@ -263,17 +277,133 @@ func escCase(f *escForm, side string, tx string) *vlib.Outcome {
 	return o
 }
 
+// ---- placements of a comment / verbatim block ---------------------------------------------------------
+//
+// A placement puts a piece of template source (INNER: a comment or a verbatim block with a little text
+// around it) somewhere other than the top level of the rendered template. The "host" is the template
+// whose source holds INNER: either the rendered template "t" itself, or another registered template that
+// "t" imports / extends / includes. The expected output is opre + reps × (what INNER yields) + opost;
+// under `apply upper` everything INNER yields is upper-cased.
+
+type place struct {
+	name        string
+	hpre, hpost string      // host source = hpre + INNER + hpost
+	hostName    string      // "" = the host is the rendered template; else it is registered under this name
+	main        string      // source of the rendered template when the host is another template
+	fixed       [][2]string // further templates the placement needs
+	opre, opost string      // output expected before / after the repetitions of INNER
+	reps        int         // how many times INNER is rendered (for body: 2)
+	upper       bool
+}
+
+const macSig, macEnd, macArgs = "{% macro m(secret, t, v) %}", "{% endmacro %}", "(secret, t, v)"
+
+var places = []place{
+	{name: "macro", hpre: macSig, hpost: macEnd + "({{ m" + macArgs + " }})", opre: "(", opost: ")"},
+	{name: "macro-self", hpre: macSig, hpost: macEnd + "({{ _self.m" + macArgs + " }})", opre: "(", opost: ")"},
+	{name: "macro-import", hostName: "mac", hpre: macSig, hpost: macEnd,
+		main: "{% import 'mac' as s %}({{ s.m" + macArgs + " }})", opre: "(", opost: ")"},
+	{name: "macro-from", hostName: "mac", hpre: macSig, hpost: macEnd,
+		main: "{% from 'mac' import m %}({{ m" + macArgs + " }})", opre: "(", opost: ")"},
+	{name: "block", hpre: "({% block b %}", hpost: "{% endblock %})", opre: "(", opost: ")"},
+	{name: "block-override", hpre: "{% extends 'par' %}{% block b %}", hpost: "{% endblock %}",
+		fixed: [][2]string{{"par", "({% block b %}P{% endblock %})"}}, opre: "(", opost: ")"},
+	{name: "block-parent", hostName: "par", hpre: "({% block b %}", hpost: "{% endblock %})",
+		main: "{% extends 'par' %}{% block b %}[{{ parent() }}]{% endblock %}", opre: "([", opost: "])"},
+	{name: "block-inherited", hostName: "par", hpre: "({% block b %}", hpost: "{% endblock %})",
+		main: "{% extends 'par' %}", opre: "(", opost: ")"},
+	{name: "include", hostName: "vi", main: "({% include 'vi' %})", opre: "(", opost: ")"},
+	{name: "for", hpre: "({% for k in [1, 2] %}", hpost: "{% endfor %})", opre: "(", opost: ")", reps: 2},
+	{name: "if", hpre: "({% if true %}", hpost: "{% endif %})", opre: "(", opost: ")"},
+	{name: "else", hpre: "({% if false %}n{% else %}", hpost: "{% endif %})", opre: "(", opost: ")"},
+	{name: "apply", hpre: "({% apply upper %}", hpost: "{% endapply %})", opre: "(", opost: ")", upper: true},
+}
+
+// shape: one way of rendering INNER, bare and with the 4100-byte comment in front of the host source.
+type shape struct {
+	label             string
+	extras, extrasBig [][2]string
+	src, srcBig       string
+	opre, opost       string
+	reps              int
+	upper             bool
+}
+
+func topShape(inner string) shape {
+	return shape{label: "top", src: inner, srcBig: bigComment + inner, reps: 1}
+}
+
+func (p *place) shape(inner string) shape {
+	host := p.hpre + inner + p.hpost
+	sh := shape{label: p.name, opre: p.opre, opost: p.opost, reps: p.reps, upper: p.upper}
+	if sh.reps == 0 {
+		sh.reps = 1
+	}
+	if p.hostName == "" {
+		sh.extras, sh.extrasBig = p.fixed, p.fixed
+		sh.src, sh.srcBig = host, bigComment+host
+		return sh
+	}
+	sh.extras = append(append([][2]string{}, p.fixed...), [2]string{p.hostName, host})
+	sh.extrasBig = append(append([][2]string{}, p.fixed...), [2]string{p.hostName, bigComment + host})
+	sh.src, sh.srcBig = p.main, p.main
+	return sh
+}
+
+func (sh *shape) tr(s string) string {
+	if sh.upper {
+		return strings.ToUpper(s)
+	}
+	return s
+}
+
+// want: the whole output when INNER yields exactly `inner` each time.
+func (sh *shape) want(inner string) string {
+	return sh.opre + strings.Repeat(sh.tr(inner), sh.reps) + sh.opost
+}
+
+// split: what INNER yielded, given the whole output (all repetitions must have yielded the same).
+func (sh *shape) split(out string) (string, string) {
+	if len(out) < len(sh.opre)+len(sh.opost) || !strings.HasPrefix(out, sh.opre) || !strings.HasSuffix(out, sh.opost) {
+		return "", fmt.Sprintf("the output around the placed block is not %q … %q", sh.opre, sh.opost)
+	}
+	mid := out[len(sh.opre) : len(out)-len(sh.opost)]
+	if len(mid)%sh.reps != 0 {
+		return "", fmt.Sprintf("the %d repetitions of the block did not render alike", sh.reps)
+	}
+	n := len(mid) / sh.reps
+	for k := 1; k < sh.reps; k++ {
+		if mid[k*n:(k+1)*n] != mid[:n] {
+			return "", fmt.Sprintf("the %d repetitions of the block did not render alike", sh.reps)
+		}
+	}
+	return mid[:n], ""
+}
+
+func (sh *shape) describe() string {
+	var sb strings.Builder
+	for _, x := range sh.extras {
+		fmt.Fprintf(&sb, "template %q = %q; ", x[0], x[1])
+	}
+	fmt.Fprintf(&sb, "rendered template %q", sh.src)
+	return sb.String()
+}
+
 // ---- com: comment bodies ------------------------------------------------------------------------
 
 var comExtra = []string{"{{ probe() }}", "{% if %}", "{{", "%}"}
 
-func comCase(body string) *vlib.Outcome {
-	o := &vlib.Outcome{Counters: map[string]int64{}, Nontrivial: body != ""}
+func comClass(body string) string {
 	cl := textClass(body)
 	if strings.Contains(body, "{{") || strings.Contains(body, "{%") {
 		cl += "+tag"
 	}
-	o.Class = "com/" + cl
+	return cl
+}
+
+func comCase(body string) *vlib.Outcome {
+	o := &vlib.Outcome{Counters: map[string]int64{}, Nontrivial: body != ""}
+	o.Class = "com/" + comClass(body)
 	c := "{#" + body + "#}"
 	for _, t := range []tmpl{
 		{"alone", c, ""},
@@ -288,6 +418,30 @@ func comCase(body string) *vlib.Outcome {
 		if want := "OK:" + t.want; got != want || big != want || probeCalls != 0 {
 			o.Violation = fmt.Sprintf("comment body %q (%s): template %q\n got  %.300q\n want %.300q\n behind a 4100-byte comment: %.300q\n probe() calls: %d", body, t.slot, t.src, got, want, big, probeCalls)
 			o.Detail = map[string]string{"template": t.src, "want": want, "got": got, "got_behind_comment": big}
+			return o
+		}
+	}
+	return o
+}
+
+// comPlaceCase: the comment inside a macro body / block / included template / for / if / apply.
+func comPlaceCase(p *place, body string) *vlib.Outcome {
+	o := &vlib.Outcome{Counters: map[string]int64{}, Nontrivial: body != ""}
+	o.Class = "comp/" + p.name + "/" + comClass(body)
+	c := "{#" + body + "#}"
+	for _, t := range []tmpl{
+		{"alone", c, ""},
+		{"text", "x" + c + "y", "xy"},
+		{"tags", "{{ v }}" + c + "{{ v }}", "VV"},
+	} {
+		sh := p.shape(t.src)
+		probeCalls = 0
+		got := renderWith(sh.extras, sh.src, ctx0)
+		big := renderWith(sh.extrasBig, sh.srcBig, ctx0)
+		o.Counters["renders"] += 2
+		if want := "OK:" + sh.want(t.want); got != want || big != want || probeCalls != 0 {
+			o.Violation = fmt.Sprintf("comment body %q (%s) placed in %s: %s\n got  %.300q\n want %.300q\n with a 4100-byte comment in front of the source that holds it: %.300q\n probe() calls: %d", body, t.slot, p.name, sh.describe(), got, want, big, probeCalls)
+			o.Detail = map[string]interface{}{"placement": p.name, "templates": sh.extras, "template": sh.src, "want": want, "got": got, "got_behind_comment": big}
 			return o
 		}
 	}
@@ -326,7 +480,10 @@ var verbCtxs = []map[string]interface{}{
 
 var leaks = []string{"S3CR3T", "<zz&>", "zz&", "L1ST", "PR0BED", "1NCLUD3D"}
 
-func verbCase(items []int) *vlib.Outcome {
+var leaksUpper = []string{"<ZZ&>", "ZZ&"} // the others have no lower-case letters
+
+// verbCase: the verbatim block at the top level of the rendered template (p == nil) or placed by p.
+func verbCase(p *place, items []int) *vlib.Outcome {
 	o := &vlib.Outcome{Counters: map[string]int64{}, Nontrivial: len(items) > 0}
 	var body strings.Builder
 	hasDash, hasTag := false, false
@@ -336,20 +493,39 @@ func verbCase(items []int) *vlib.Outcome {
 		hasTag = hasTag || !verbItems[i].text
 	}
 	o.Class = fmt.Sprintf("verb/tags=%v/dash=%v", hasTag, hasDash)
-	for _, sh := range []struct{ pre, post, wpre, wpost string }{
-		{"<", ">[{{ q }}]", "<", ">[]"},
-		{"", "", "", ""},
-	} {
-		src := sh.pre + "{% verbatim %}" + body.String() + "{% endverbatim %}" + sh.post
+	if p != nil {
+		o.Class = fmt.Sprintf("verbp/%s/tags=%v/dash=%v", p.name, hasTag, hasDash)
+	}
+	vb := "{% verbatim %}" + body.String() + "{% endverbatim %}"
+	type wrapped struct {
+		sh          shape
+		wpre, wpost string // what the text around the block must render to, each time
+	}
+	var shapes []wrapped
+	if p == nil {
+		shapes = []wrapped{
+			{topShape("<" + vb + ">[{{ q }}]"), "<", ">[]"},
+			{topShape(vb), "", ""},
+		}
+	} else {
+		shapes = []wrapped{{p.shape("<" + vb + ">[{{ q }}]"), "<", ">[]"}}
+	}
+	for _, w := range shapes {
+		sh := w.sh
 		var first, firstBig string
 		for ci, c := range verbCtxs {
 			probeCalls = 0
-			got := render(src, c)
-			big := render(bigComment+src, c)
+			got := renderWith(sh.extras, sh.src, c)
+			big := renderWith(sh.extrasBig, sh.srcBig, c)
 			o.Counters["renders"] += 2
 			fail := func(msg string) *vlib.Outcome {
-				o.Violation = fmt.Sprintf("verbatim body %q, context #%d: %s\n template %q\n got %.300q\n behind a 4100-byte comment: %.300q", body.String(), ci, msg, src, got, big)
-				o.Detail = map[string]interface{}{"template": src, "context": ci, "got": got}
+				if p == nil {
+					o.Violation = fmt.Sprintf("verbatim body %q, context #%d: %s\n template %q\n got %.300q\n behind a 4100-byte comment: %.300q", body.String(), ci, msg, sh.src, got, big)
+					o.Detail = map[string]interface{}{"template": sh.src, "context": ci, "got": got}
+				} else {
+					o.Violation = fmt.Sprintf("verbatim body %q placed in %s, context #%d: %s\n %s\n got %.300q\n with a 4100-byte comment in front of the source that holds it: %.300q", body.String(), p.name, ci, msg, sh.describe(), got, big)
+					o.Detail = map[string]interface{}{"placement": p.name, "templates": sh.extras, "template": sh.src, "context": ci, "got": got}
+				}
 				return o
 			}
 			if !strings.HasPrefix(got, "OK:") {
@@ -371,24 +547,34 @@ func verbCase(items []int) *vlib.Outcome {
 					return fail("output contains context data / evaluated content " + l)
 				}
 			}
-			out := got[3:]
-			if !strings.HasPrefix(out, sh.wpre) || !strings.HasSuffix(out, sh.wpost) || len(out) < len(sh.wpre)+len(sh.wpost) {
-				return fail(fmt.Sprintf("text around the verbatim block is not %q … %q (a set inside the body must not take effect)", sh.wpre, sh.wpost))
+			if sh.upper {
+				for _, l := range leaksUpper {
+					if strings.Contains(got, l) {
+						return fail("output contains context data / evaluated content " + l)
+					}
+				}
+			}
+			out, msg := sh.split(got[3:])
+			if msg != "" {
+				return fail(msg)
+			}
+			if !strings.HasPrefix(out, w.wpre) || !strings.HasSuffix(out, w.wpost) || len(out) < len(w.wpre)+len(w.wpost) {
+				return fail(fmt.Sprintf("text around the verbatim block is not %q … %q (a set inside the body must not take effect)", w.wpre, w.wpost))
 			}
 			if !hasDash {
 				// literal text items of the body: each exactly as often as written, in order
-				rest := out[len(sh.wpre) : len(out)-len(sh.wpost)]
+				region := out[len(w.wpre) : len(out)-len(w.wpost)]
+				rest := region
 				for _, i := range items {
 					if !verbItems[i].text {
 						continue
 					}
-					k := strings.Index(rest, verbItems[i].src)
+					k := strings.Index(rest, sh.tr(verbItems[i].src))
 					if k < 0 {
 						return fail(fmt.Sprintf("literal text %q of the body is missing or out of order", verbItems[i].src))
 					}
-					rest = rest[k+len(verbItems[i].src):]
+					rest = rest[k+len(sh.tr(verbItems[i].src)):]
 				}
-				region := out[len(sh.wpre) : len(out)-len(sh.wpost)]
 				for vi, it := range verbItems {
 					if !it.text {
 						continue
@@ -399,7 +585,7 @@ func verbCase(items []int) *vlib.Outcome {
 							n++
 						}
 					}
-					if c := strings.Count(region, it.src); c != n {
+					if c := strings.Count(region, sh.tr(it.src)); c != n {
 						return fail(fmt.Sprintf("literal text %q stands %d times in the body but %d times in the output", it.src, n, c))
 					}
 				}
@@ -495,9 +681,30 @@ func run(t *vlib.T) {
 		if l <= verbMax {
 			words(len(verbItems), l, func(idx []int) bool {
 				items := append([]int{}, idx...)
-				t.Case("verb/"+keyOf(idx), func() *vlib.Outcome { return verbCase(items) })
+				t.Case("verb/"+keyOf(idx), func() *vlib.Outcome { return verbCase(nil, items) })
 				return !t.Stopped()
 			})
+		}
+		// the same bodies in every placement other than the top level
+		for pi := range places {
+			p := &places[pi]
+			if l <= verbMax {
+				words(len(verbItems), l, func(idx []int) bool {
+					items := append([]int{}, idx...)
+					t.Case("verbp/"+p.name+"/"+keyOf(idx), func() *vlib.Outcome { return verbCase(p, items) })
+					return !t.Stopped()
+				})
+			}
+			if l <= comMax {
+				words(len(comAlpha), l, func(idx []int) bool {
+					body := cat(comAlpha, idx)
+					if strings.Contains(body, "#}") {
+						return true
+					}
+					t.Case("comp/"+p.name+"/"+keyOf(idx), func() *vlib.Outcome { return comPlaceCase(p, body) })
+					return !t.Stopped()
+				})
+			}
 		}
 		if t.Stopped() {
 			return
@@ -511,7 +718,8 @@ func main() {
 		Level: "exploration",
 		Rule: "lit: every string of <= 3 (thorough 4; 5 around {{ v }} and {%- if -%}) symbols of a 17-symbol byte alphabet as literal text alone, before, between, after and inside each of 10 tag kinds, byte-exact against the concatenation model, bare and behind a 4100-byte comment; " +
 			"esc: every such text of <= 3 (thorough 4) symbols not ending in a backslash before, and every such text after, a backslash-escaped opener (\\{{ x }}, \\{% if %}, \\{# c #}): the output must start with the text before and end with the text after, what lies between is not checked; " +
-			"com: every comment body of <= 3 (thorough 4) symbols of that alphabet plus {{ probe() }}, {% if %}, {{, %}; verb: every verbatim body of <= 3 (thorough 4) items under 4 contexts. " +
+			"com: every comment body of <= 3 (thorough 4) symbols of that alphabet plus {{ probe() }}, {% if %}, {{, %}; verb: every verbatim body of <= 3 (thorough 4) items under 4 contexts; " +
+			"place: each of those comment and verbatim bodies again in 13 placements (macro body called directly / via _self / via import-as / via from-import, block plain / overriding / through parent() / inherited, included template, for body, if branch, else branch, apply upper), same oracle. " +
 			"non-trivial = the text / body is non-empty and admissible as literal text in at least one slot",
 		Assumptions: []string{
 			"a lone { immediately before a tag opener is excluded (maximal munch), as is text that itself contains an opener; what a backslash immediately before an opener and the tag after it render to is left open (undocumented escape) — only the text before the backslash and after the closer is checked (prefix / suffix); a text ending in a backslash before the escaping backslash is excluded",
@@ -524,6 +732,11 @@ func main() {
 		Extra: func(tier string, cov map[string]interface{}) {
 			cov["alphabet"] = fmt.Sprintf("%q", sigma)
 			cov["tag_kinds"] = len(tags)
+			var pn []string
+			for _, p := range places {
+				pn = append(pn, p.name)
+			}
+			cov["placements"] = strings.Join(pn, ",")
 		},
 	})
 }
